@@ -110,3 +110,42 @@ pub fn accept_auth_failure_native(_x: u8) -> u32 {
         _ => panic!("retransmitted Initial was not treated as a new attempt (stale route)"),
     }
 }
+
+/// Native replay body for the E2 queries `e2_clean_up_incoming`, `e2_endpoint_refuse_cleans_up`,
+/// `e2_endpoint_ignore_cleans_up` (C09 / C08): after an attempt has been ignored or refused, a
+/// retransmitted Initial with the same destination CID starts a fresh attempt and no buffered bytes
+/// stay accounted.
+pub fn dispose_incoming_native(refuse: bool) -> u32 {
+    use crate::connection::verif::nullcrypto;
+    let mut cfg = EndpointConfig::new(Arc::new(NullHmac));
+    cfg.rng_seed(Some([7; 32]));
+    let server = ServerConfig::new(Arc::new(nullcrypto::NullServerCrypto), Arc::new(nullcrypto::NullTokenKey));
+    let mut ep = Endpoint::new(Arc::new(cfg), Some(Arc::new(server)), true);
+    let now = crate::verif::mk_instant(100, 0).unwrap();
+    let remote: SocketAddr = "10.0.0.1:4433".parse().unwrap();
+    let mk = || {
+        let mut v = vec![0xc0u8, 0, 0, 0, 1, 8, 9, 9, 9, 9, 9, 9, 9, 9, 0, 0];
+        let rest = 1200 - v.len() - 2;
+        v.extend_from_slice(&[0x40 | (rest >> 8) as u8, rest as u8]);
+        v.resize(1200, 0);
+        BytesMut::from(&v[..])
+    };
+    let mut buf = Vec::new();
+    let Some(DatagramEvent::NewConnection(incoming)) = ep.handle(now, remote, None, None, mk(), &mut buf) else { panic!("first Initial must start a connection attempt") };
+    // a second datagram for the pending attempt is buffered
+    assert!(ep.handle(now, remote, None, None, mk(), &mut buf).is_none());
+    assert!(ep.incoming_buffer_bytes() > 0);
+    if refuse {
+        let _ = ep.refuse(incoming, &mut buf);
+    } else {
+        ep.ignore(incoming);
+    }
+    assert!(ep.incoming_buffer_bytes() == 0, "buffered bytes of a disposed attempt still accounted");
+    match ep.handle(now, remote, None, None, mk(), &mut buf) {
+        Some(DatagramEvent::NewConnection(again)) => {
+            ep.ignore(again);
+            1
+        }
+        _ => panic!("retransmitted Initial was not treated as a new attempt (stale route)"),
+    }
+}
